@@ -85,6 +85,9 @@ func victimMain() {
 		server.StartSCIONDispatcher(ctx, log, &net.UDPAddr{IP: ip2, Port: 1})
 		cert := victimCert()
 		server.StartNTSKEServerIP(ctx, log, ip, vNTPPort, &tls.Config{Certificates: []tls.Certificate{cert}, NextProtos: []string{"ntske/1"}, MinVersion: tls.VersionTLS13}, provider)
+		// the key-exchange server over SCION (QUIC on the SCION/UDP port 14460): raw SCION datagrams reach its packet reader
+		server.StartNTSKEServerSCION(ctx, log, udp.UDPAddr{IA: addr.MustIAFrom(1, 0xff0000000110), Host: &net.UDPAddr{IP: ip, Port: vSCIONPort}},
+			&tls.Config{Certificates: []tls.Certificate{cert}, NextProtos: []string{"ntske/1"}, MinVersion: tls.VersionTLS13}, provider)
 		prometheus.DefaultRegisterer = prometheus.NewRegistry()
 		server.StartCSPTPServerIP(ctx, log, &net.UDPAddr{IP: ip}, 0)
 	}
